@@ -194,11 +194,27 @@ class C18(Property):
                 # the collection object is reused: compared, changed in place (same length), compared again
                 a2 = json.loads(json.dumps(a))
                 j = rng.randrange(len(a2))
-                if rng.random() < 0.5:
-                    a2[j] = c04.gen_group(rng, et, 1)[0]
+                how = rng.choice(['setitem', 'setitem', 'slice', 'reverse', 'iadd', 'insert', 'pop', 'del', 'remove'])
+                extra = c04.gen_group(rng, et, 1)[0]
+                if how in ('setitem', 'slice'):
+                    if rng.random() < 0.5:
+                        a2[j] = extra
+                    else:
+                        a2[j]['parents'] = ['%040x' % rng.randint(10, 20)]
+                elif how == 'reverse':
+                    a2.reverse()
+                elif how == 'iadd':
+                    a2 = a2 + [extra]
+                elif how == 'insert':
+                    a2 = [extra] + a2
+                elif how == 'pop':
+                    a2 = a2[:-1]
                 else:
-                    a2[j]['parents'] = ['%040x' % rng.randint(10, 20)]
+                    a2 = a2[1:]
                 case['a2'] = a2
+                # which list operation takes the collection there (item assignment, slice assignment, reverse(), +=, insert(),
+                # pop(), del, remove())
+                case['a2_how'] = how
             yield case
 
     def observe(self, case):
@@ -233,9 +249,25 @@ class C18(Property):
                 a.resolve_collisions()
             except Exception:
                 pass
-            for j, e in enumerate(case['a2']):
-                if e != case['a'][j]:
-                    a[j] = gen.build_event(e, case['repr'])
+            how = case.get('a2_how', 'setitem')
+            if how == 'setitem':
+                for j, e in enumerate(case['a2']):
+                    if e != case['a'][j]:
+                        a[j] = gen.build_event(e, case['repr'])
+            elif how == 'slice':
+                a[:] = [gen.build_event(e, case['repr']) for e in case['a2']]
+            elif how == 'reverse':
+                a.reverse()
+            elif how == 'iadd':
+                a += [gen.build_event(case['a2'][-1], case['repr'])]
+            elif how == 'insert':
+                a.insert(0, gen.build_event(case['a2'][0], case['repr']))
+            elif how == 'pop':
+                a.pop()
+            elif how == 'del':
+                del a[0]
+            else:
+                a.remove(a[0])
             res['a2b'] = run(a, b)
             res['ba2'] = run(b, a)
         return res
